@@ -1109,6 +1109,75 @@ func c10Games(c *core.Collector, x *Ctx) {
 		}
 	})
 	c.Floor("sequences_with_timer_paths_reached", 1000)
+	// exhaustive part: EVERY sequence of up to L fragments of one message ID over the alphabet {total 2,3} x {number 1,2,3} x
+	// {empty body, 1-byte body} (12 symbols; contradictory totals, numbers beyond the total, slots overwritten by empty bodies
+	// and filled again — whatever bookkeeping a parser keeps per transfer is driven through every short history), each
+	// followed by an aged read. L = 5 (271 452 sequences) in quick, 6 in thorough (3.26 M), batch 0 only.
+	if x.Batch == 0 {
+		L := 5
+		if c.Thorough() {
+			L = 6
+		}
+		type sym struct {
+			sum, no uint16
+			empty   bool
+		}
+		var alpha []sym
+		for _, sum := range []uint16{2, 3} {
+			for _, no := range []uint16{1, 2, 3} {
+				alpha = append(alpha, sym{sum, no, false}, sym{sum, no, true})
+			}
+		}
+		pre := make([][]byte, len(alpha))
+		for i, a := range alpha {
+			var body []byte
+			if !a.empty {
+				body = []byte{byte(0x41 + i)}
+			}
+			pre[i] = hookFrameV(false, 0x0801, uint16(100+i), true, a.sum, a.no, body)
+		}
+		hb := hookFrameV(false, 0x0002, 9, false, 0, 0, nil)
+		total := 0
+		for l := 1; l <= L; l++ {
+			n := 1
+			for k := 0; k < l; k++ {
+				n *= len(alpha)
+			}
+			total += n
+			ll := l
+			const shards = 256
+			core.ParallelFor(shards, ncpu(), func(sh int) {
+				seq := make([]int, ll)
+				for idx := sh; idx < n; idx += shards {
+					v := idx
+					for k := 0; k < ll; k++ {
+						seq[k] = v % len(alpha)
+						v /= len(alpha)
+					}
+					wit := func() any {
+						var fs []string
+						for _, q := range seq {
+							fs = append(fs, core.Hex(pre[q]))
+						}
+						return &hookScenario{Kind: "c10games", Gen: "exhaustive short fragment histories", Frames: fs}
+					}
+					if guard(c, wit, func() {
+						vp := service.NewVerifParser()
+						for _, q := range seq {
+							vp.Feed(pre[q])
+						}
+						vp.Age(5600 * time.Millisecond)
+						vp.Feed(hb)
+					}) {
+						return
+					}
+				}
+			})
+		}
+		c.Evals(int64(total))
+		c.Count("exhaustive_fragment_histories", int64(total))
+		c.Floor("exhaustive_fragment_histories", 270000)
+	}
 }
 
 // ---- descriptor exhaustion -----------------------------------------------------------------------------------
